@@ -124,6 +124,28 @@ def r1_reject_before_model(ctx):
     _schedule_guards(ctx, rp, "self._times", ["ndim", "nonzero", "after-start", "increasing"], {"start_time"}, "ReadoutProperties")
     ro = ctx.func(f"{RO}.__init__")
     _schedule_guards(ctx, ro, "self._times", ["nonzero", "after-start", "increasing"], {"start_time"}, "Readout")
+    # "runs once per readout time" for a schedule given as a file: every value of the table is a readout time,
+    # in file order - the whole table flattened, no column / row selection
+    tf = [(st, v) for st, v in [(st_, getattr(st_, "value", None)) for st_, _ in stores(ro.node, lambda t: dotted(t) == "self._times")] if v is not None and "load_table" in norm(expand(ro, v))]
+    if tf:
+        v = expand(ro, tf[0][1])
+        sel = [x for x in ast.walk(v) if isinstance(x, ast.Subscript) or (isinstance(x, ast.Attribute) and x.attr in ("iloc", "loc", "iat", "at", "columns", "index", "head", "tail", "squeeze", "T"))]
+        chain = v
+        whole = True
+        while not (isinstance(chain, ast.Call) and call_name(chain).split(".")[-1] == "load_table"):
+            if isinstance(chain, ast.Call) and isinstance(chain.func, ast.Attribute) and chain.func.attr in ("to_numpy", "flatten", "ravel", "astype", "reshape") :
+                if chain.func.attr == "reshape" and norm(chain) .replace(" ", "").split("reshape")[-1] not in ("(-1)", "((-1,))", "(-1,)"):
+                    whole = False
+                chain = chain.func.value
+            elif isinstance(chain, ast.Call) and call_name(chain) in ("np.asarray", "np.array", "np.ravel", "numpy.asarray", "numpy.array", "numpy.ravel") and chain.args:
+                chain = chain.args[0]
+            elif isinstance(chain, ast.Attribute) and chain.attr == "values":
+                chain = chain.value
+            else:
+                whole = False
+                break
+        ok = whole and not sel
+        ctx.check(ok, f"{RO}.__init__#times-from-file", "all values of the schedule file, flattened in file order" if ok else f"the schedule read from a file is `{norm(v)[:80]}`: only a part of the table (a column / row / element) becomes readout times, the other values are dropped", where=ro, node=tf[0][0])
     # set_readout constructs ReadoutProperties
     sr = ctx.func(f"{DET}.set_readout")
     cons = stmt_calls(sr, ctx.R, {RP}) or [c for c in calls_in(sr.node) if call_name(c).endswith("ReadoutProperties")]
